@@ -934,6 +934,17 @@ def c19_real_requests(wk, loglevel, big, logcfg=None):
             s.rewrite_config(ROOT_LOGCONFIG % {"path": logp})
         else:
             s.cmd[-1:-1] = ["--access-logfile", logp]
+        if logcfg == "ini":
+            # an ini-style --log-config that names other loggers only (root, gunicorn.error): the access logger, set up from
+            # --access-logfile, is an "existing logger" for logging.config.fileConfig
+            ini = os.path.join(s.dir, "logging.ini")
+            with open(ini, "w") as f:
+                f.write("[loggers]\nkeys=root, gunicorn.error\n\n[handlers]\nkeys=console\n\n[formatters]\nkeys=generic\n\n"
+                        "[logger_root]\nlevel=INFO\nhandlers=console\n\n"
+                        "[logger_gunicorn.error]\nlevel=INFO\nhandlers=console\npropagate=0\nqualname=gunicorn.error\n\n"
+                        "[handler_console]\nclass=StreamHandler\nformatter=generic\nargs=(sys.stderr, )\n\n"
+                        "[formatter_generic]\nformat=%(message)s\n")
+            s.cmd[-1:-1] = ["--log-config", ini]
         if logcfg == "statsd":
             # statsd configured (the Statsd logger class replaces the default one) but not reachable when the server starts
             s.cmd[-1:-1] = ["--statsd-host", "unix://" + os.path.join(s.dir, "no-statsd.sock"), "--statsd-prefix", "v"]
@@ -981,10 +992,69 @@ def c19_real_requests(wk, loglevel, big, logcfg=None):
                 except (ValueError, IndexError):
                     pass
             ev = {"kind": "completed", "nrec": len(mine), "status": status, "bytes": nbytes, "wstatus": st, "wbody": nbody, "maxlines": 1}
-            out.append((ev, {"kind": wk, "fmt": "%(s)s|%(B)s|%(U)s|%(q)s", "what": "real-%s-loglevel=%s%s" % ("bigfile" if key == "3" else "plain", loglevel, {"root": ",handler-on-root-logger", "statsd": ",statsd-unreachable"}.get(logcfg, "")),
+            out.append((ev, {"kind": wk, "fmt": "%(s)s|%(B)s|%(U)s|%(q)s", "what": "real-%s-loglevel=%s%s" % ("bigfile" if key == "3" else "plain", loglevel, {"root": ",handler-on-root-logger", "statsd": ",statsd-unreachable", "ini": ",ini-log-config"}.get(logcfg, "")),
                              "records": mine[:3], "wire": "", "escaped": None, "ncalls": 1, "request": "GET n=" + key}))
         return out
     finally:
+        s.cleanup()
+
+
+def c19_real_syslog_hup(wk):
+    """access records sent to syslog (UDP, received here); one request, a reload (HUP), another request through a worker of
+    the new generation: every request leaves exactly one record, before and after the reload"""
+    import signal
+    import socket
+    import time
+    from drivers import realproc as rp
+    rx = socket.socket(socket.AF_INET, socket.SOCK_DGRAM)
+    rx.bind(("127.0.0.1", 0))
+    rx.settimeout(0.2)
+    port = rx.getsockname()[1]
+    s = rp.Server(wk, workers=1, threads=2 if wk == "gthread" else None, name="c19s",
+                  args=["--keep-alive", "2", "--access-logformat", "%(s)s|%(B)s|%(U)s|%(q)s", "--log-syslog",
+                        "--log-syslog-to", "udp://127.0.0.1:%d" % port, "--graceful-timeout", "2"])
+    out = []
+    try:
+        s.start()
+        first = s.wait_booted(1)
+        got = {}
+
+        def drain():
+            msgs = []
+            t_end = time.time() + 0.8
+            while time.time() < t_end:
+                try:
+                    msgs.append(rx.recv(65536).decode("latin-1"))
+                except OSError:
+                    pass
+            return msgs
+        drain()
+        for key in ("1", "2"):
+            if key == "2":
+                s.signal(signal.SIGHUP)
+                deadline = time.time() + 10
+                while time.time() < deadline:
+                    live = [p for p in s.booted() if p in s.workers() and p not in first]
+                    if live and not [p for p in first if rp.proc_state(p) not in (None, "Z")]:
+                        break
+                    time.sleep(0.1)
+                drain()
+            st, body, info = s.get("/pid?n=" + key, timeout=6)
+            recs = [m.rstrip("\x00\r\n ") for m in drain()]
+            recs = [m for m in recs if m.endswith("n=" + key)]
+            status = nbytes = -1
+            if recs:
+                try:
+                    parts = recs[0].rsplit(" ", 1)[-1].split("|")
+                    status, nbytes = int(parts[0][-3:]), int(parts[1])
+                except (ValueError, IndexError):
+                    pass
+            ev = {"kind": "completed", "nrec": len(recs), "status": status, "bytes": nbytes, "wstatus": st, "wbody": len(body), "maxlines": 1}
+            out.append((ev, {"kind": wk, "fmt": "%(s)s|%(B)s|%(U)s|%(q)s", "what": "real-syslog-%s" % ("before-hup" if key == "1" else "after-hup"),
+                             "records": recs[:3], "wire": "", "escaped": None, "ncalls": 1, "request": "GET n=" + key}))
+        return out
+    finally:
+        rx.close()
         s.cleanup()
 
 
@@ -1270,10 +1340,14 @@ def c19(ctx):
     for ev, info in _parallel(plan, lambda a, i: c19_real_idle(a)):
         traces.append({"ev": [ev]})
         metas.append(info)
-    plan2 = [("eventlet", "debug", True), ("gthread", "error", True), ("sync", "warning", False), ("gthread", "info", False, "root"), ("sync", "info", False, "statsd")] if ctx.quick else \
+    plan2 = [("eventlet", "debug", True), ("gthread", "error", True), ("sync", "warning", False), ("gthread", "info", False, "root"), ("sync", "info", False, "statsd"), ("gthread", "info", False, "ini")] if ctx.quick else \
         [(wk, lv, True) for wk in ("sync", "gthread", "gevent", "eventlet") for lv in ("debug", "info", "warning", "critical")] + \
-        [(wk, "info", False, lc) for wk in ("sync", "gthread", "gevent", "eventlet") for lc in ("root", "statsd")]
+        [(wk, "info", False, lc) for wk in ("sync", "gthread", "gevent", "eventlet") for lc in ("root", "statsd", "ini")]
     for res in _parallel(plan2, lambda a, i: c19_real_requests(a[0], a[1], a[2], a[3] if len(a) > 3 else None)):
+        for ev, info in res:
+            traces.append({"ev": [ev]})
+            metas.append(info)
+    for res in _parallel(["sync"] if ctx.quick else ["sync", "gthread", "gevent", "eventlet"], lambda a, i: c19_real_syslog_hup(a)):
         for ev, info in res:
             traces.append({"ev": [ev]})
             metas.append(info)
